@@ -371,7 +371,12 @@ pub fn admissible(s: &EnumSpec) -> Vec<&'static str> {
 pub fn render(p: &C19Program, cfg: &str, idx: usize) -> String {
     let mut spec = p.spec.clone();
     let (strum, crate_attr): (&str, Option<String>) = match cfg {
-        "renamed" => ("strum_x", Some(if idx % 2 == 0 { "strum_x".to_string() } else { "crate::re::strum_x".to_string() })),
+        // three spellings of the path; the `::`-rooted one sits next to a local module with the crate's name
+        "renamed" => match idx % 3 {
+            0 => ("strum_x", Some("strum_x".to_string())),
+            1 => ("strum_x", Some("crate::re::strum_x".to_string())),
+            _ => ("::strum_x", Some("::strum_x".to_string())),
+        },
         // a local module named `strum` is in scope as well: the derives are named by absolute path, and the generated code
         // must reach the crate through `::strum` (its default path) too
         "shadowed" => ("::strum", None),
@@ -409,6 +414,9 @@ pub fn render(p: &C19Program, cfg: &str, idx: usize) -> String {
     let mut o = String::new();
     if cfg == "shadowed" {
         o.push_str("mod core {}\nmod std {}\nmod strum {}\n");
+    }
+    if crate_attr.as_deref() == Some("::strum_x") {
+        o.push_str("mod strum_x {}\n");
     }
     o.push_str(&render_enum(&spec, &dref));
     o.push_str(&render_dw_helpers(&spec, "u8"));
